@@ -132,7 +132,7 @@ func RunKeyUpdateScenario(seed uint64, grace time.Duration) (viol string, st Sta
 	}
 	sc := newScen(r, cli, srv)
 	ks := []*kuSide{{side: sc.sides[0], tr: trs[0]}, {side: sc.sides[1], tr: trs[1]}}
-	far := func() time.Time { return time.Now().Add(120 * time.Second) } // beyond the 90 s watchdog of finish()
+	far := farAway // the rig sets no deadline of its own (load.go)
 
 	var activity sync.WaitGroup // all writers and injectors of both ends
 	var injectors atomic.Int32  // injectors still running (both ends)
